@@ -33,27 +33,28 @@ type avVec struct {
 }
 
 type avOut struct {
-	ID         int      `json:"id"`
-	Reported   bool     `json:"reported"`  // "... is not allowed here" for exactly this name at the placeholder
-	Undefined  bool     `json:"undefined"` // undefined variable "jobs" at the placeholder (5.22)
-	NotAllowed int      `json:"n_notallowed"`
-	Others     []string `json:"others"` // anything else: the vector is inconclusive
-	Ctx        []string `json:"ctx,omitempty"`
-	Fns        []string `json:"fns,omitempty"`
-	NilCtx     bool     `json:"nilctx,omitempty"`
-	Expr       string   `json:"expr,omitempty"`
-	Src        string   `json:"src,omitempty"`
+	ID            int      `json:"id"`
+	Reported      bool     `json:"reported"`       // "... is not allowed here" for exactly this name at the placeholder
+	ReportedUpper bool     `json:"reported_upper"` // avail-api: the same for the upper-case spelling
+	Undefined     bool     `json:"undefined"`      // undefined variable "jobs" at the placeholder (5.22)
+	NotAllowed    int      `json:"n_notallowed"`
+	Others        []string `json:"others"` // anything else: the vector is inconclusive
+	Ctx           []string `json:"ctx,omitempty"`
+	Fns           []string `json:"fns,omitempty"`
+	NilCtx        bool     `json:"nilctx,omitempty"`
+	Expr          string   `json:"expr,omitempty"`
+	Src           string   `json:"src,omitempty"`
 }
 
 // ---------------------------------------------------------------------------------------------
 // position catalogue: how to write a workflow with one scalar at the position (marker @@)
 
 type avPos struct {
-	on   string // replaces `on: push`
-	top  string // additional top-level lines
-	job  string // lines of job `test` (relative indentation)
-	step string // lines of the step under test; "" = `run: echo`
-	call bool   // job `test` calls a reusable workflow
+	on       string // replaces `on: push`
+	top      string // additional top-level lines
+	job      string // lines of job `test` (relative indentation)
+	step     string // lines of the step under test; "" = `run: echo`
+	call     bool   // job `test` calls a reusable workflow
 	noRunsOn bool
 }
 
@@ -63,8 +64,8 @@ const avNeutral = "${{ fromJSON(toJSON('x')) }}"
 func avContainer(prefix string) map[string]string {
 	// bodies of a container mapping, relative to the key that holds it
 	return map[string]string{
-		"":                     prefix + ": @@\n",
-		".image":               prefix + ":\n  image: @@\n",
+		"":                      prefix + ": @@\n",
+		".image":                prefix + ":\n  image: @@\n",
 		".credentials.username": prefix + ":\n  image: alpine\n  credentials:\n    username: @@\n    password: " + avNeutral + "\n",
 		".credentials.password": prefix + ":\n  image: alpine\n  credentials:\n    username: user\n    password: @@\n",
 		".env.<env_name>":       prefix + ":\n  image: alpine\n  env:\n    FOO: @@\n",
@@ -497,9 +498,8 @@ func avAPI(v avVec) (out avOut) {
 		out.Others = append(out.Others, o.Others...)
 		if spelling == "" {
 			out.Reported = o.Reported
-		} else if o.Reported != out.Reported {
-			out.Others = append(out.Others, fmt.Sprintf("verdict depends on letter case: %q reported=%v, %q reported=%v",
-				avCore(v.Name, v.NKind, ""), out.Reported, src, o.Reported))
+		} else {
+			out.ReportedUpper = o.Reported
 		}
 	}
 	return out
